@@ -273,4 +273,12 @@ def watchdog(seconds, ctx=None):
     t = threading.Timer(seconds, fire)
     t.daemon = True
     t.start()
+    # the timer thread needs the interpreter lock: code that keeps it (a regular expression backtracking for hours)
+    # would never let it run.  The alarm is delivered to the main thread, which such code does poll.
+    try:
+        import signal
+        signal.signal(signal.SIGALRM, lambda signum, frame: fire())
+        signal.alarm(int(seconds) + 20)
+    except (ValueError, AttributeError):
+        pass
     return t
